@@ -54,8 +54,9 @@ PROPS["C08"] = {
                   "lines, once each, in order), C08_continuation and C08_next_start_emits (continuation lines stay attached); C08_process_buffer_is_feed / "
                   "C08_fragmentation_index_level (Model/FrameIdx.lean transcribes processBuffer statement by statement - flat buffer, recordStart / searchStart, "
                   "bytes.IndexByte, the slices, the relocation - and for every reader state and fragment this index loop emits exactly the records and leaves "
-                  "exactly the buffer and offsets of the byte-fed model, so the framing theorems are theorems about the index loop; two whole-body facts pin "
-                  "processBuffer and Read), "
+                  "exactly the buffer and offsets of the byte-fed model; C08_flush_index_level / C08_flushAll_index_level / C08_checkOverflow_index_level / C08_read_index_level do the same for "
+                  "Flush, FlushAll, checkOverflow and a whole Read call, so the framing theorems are theorems about the index-level reader; five whole-body "
+                  "facts pin the five functions), "
                   "proved in Lean 4 for all streams / cuts / flush placements on a model of multilinereader.go whose derived "
                   "offsets are compared with the real offsetSearch / offsetAppend after every call. When the listener flushes "
                   "(Model/FlushPolicy.lean: NetConnWrapper.Read's lazy deadline renewal and the read loop of runConnection): "
@@ -65,8 +66,8 @@ PROPS["C08"] = {
                   "(the observer's check of a real Read accepts every behaviour of the model); tied by four regenerated source facts "
                   "(renewal condition, 2x interval, the listener's interval, the read loop's flush branches) and the flush component.",
     "level_note": "Trusted: Lean kernel + 3 standard axioms; processBuffer's index loop is proved equal to the byte-fed model "
-                  "(C08_process_buffer_is_feed), its transcription pinned by whole-body facts and by the differential run (all outputs and both "
-                  "offsets, every call); Flush / FlushAll / checkOverflow are modelled at the byte-list level only; in the framing "
+                  "(C08_process_buffer_is_feed), and so are Flush, FlushAll and checkOverflow; the transcriptions are pinned by whole-body facts and by "
+                  "the differential run (all outputs and both offsets, every call); in the framing "
                   "theorems flush ticks are placed arbitrarily, and the flush-policy theorems bound where the real listener places "
                   "them; kernel timers fire no earlier than their deadline (observed one-sidedly).",
     "partial": "the theorems assume no overflow handling is triggered (records shorter than the soft limit); the overflow branch "
